@@ -57,6 +57,7 @@ func init() {
 		{"C07", "adder", props.C07adder},
 		{"C05", "adder", props.C07adder},
 		{"C17", "garble", props.C01},
+		{"C20", "voleext", props.VoleExtensionCounts},
 		{"C14", "seenorder", props.SeenOrder},
 		{"C20", "lostfield", props.LostFieldUpdates("ot", "vole", "bmr")},
 		{"C06", "lostfield", props.LostFieldUpdates("ot")},
